@@ -144,6 +144,31 @@ pub fn c17(args: &Args) {
             }
         }
     }
+    // (F, G) NOT larger than (f, g) yet not reduced: scaled-down, clamped, thinned and negated copies of (f, g) -- the rounded
+    // quotient is a non-zero constant although the largest coefficient of (F, G) has no more bits than that of (f, g)
+    for &n in &[2usize, 4, 16, 64, 512, 1024] {
+        if !thorough && (n == 16 || n == 1024) {
+            continue;
+        }
+        let sigma = (1.17 * (12289.0 / (2.0 * n as f64)).sqrt()).max(4.0);
+        let f = small_vec(&mut rng, n, sigma);
+        let g = small_vec(&mut rng, n, sigma);
+        if f.iter().all(|&x| x == 0) && g.iter().all(|&x| x == 0) {
+            continue;
+        }
+        let fmax = f.iter().chain(g.iter()).map(|x| x.abs()).max().unwrap().max(2);
+        let clamp = |v: &Vec<i64>, m: i64| v.iter().map(|&x| x.clamp(-m, m)).collect::<Vec<i64>>();
+        let scale = |v: &Vec<i64>, num: i64, den: i64| v.iter().map(|&x| (x * num).div_euclid(den)).collect::<Vec<i64>>();
+        let thin = |v: &Vec<i64>| v.iter().enumerate().map(|(i, &x)| if i % 5 == 4 { 0 } else { x }).collect::<Vec<i64>>();
+        out.emit(babai_event(&f, &g, &f, &g, "FG-equals-fg"));
+        out.emit(babai_event(&f, &g, &scale(&f, -1, 1), &scale(&g, -1, 1), "FG-negated-fg"));
+        out.emit(babai_event(&f, &g, &clamp(&f, fmax / 2), &clamp(&g, fmax / 2), "FG-clamped-fg"));
+        out.emit(babai_event(&f, &g, &clamp(&f, (fmax * 3) / 4), &clamp(&g, (fmax * 3) / 4), "FG-clamped-fg"));
+        out.emit(babai_event(&f, &g, &scale(&f, 3, 4), &scale(&g, 3, 4), "FG-scaled-fg"));
+        out.emit(babai_event(&f, &g, &scale(&f, -2, 3), &scale(&g, -2, 3), "FG-scaled-fg"));
+        out.emit(babai_event(&f, &g, &thin(&f), &thin(&g), "FG-thinned-fg"));
+    }
+    out.emit(babai_event(&[4, 1], &[1, 2], &[3, 1], &[1, 1], "FG-smaller-than-fg"));
     // corners: all-zero (F,G) (defect D7 before fix 75957a9); unit f; sparse
     for &n in &[2usize, 4, 64] {
         let f = small_vec(&mut rng, n, 5.0).iter().map(|x| x + 1).collect::<Vec<_>>();
